@@ -101,3 +101,61 @@ PROPS["C20"] = {
 }
 
 PENDING_REASON = "machinery for this property is not built yet in this revision of /verif (construction order: DESIGN.md §5)"
+
+MEM_NOTE = ("In-memory broker only in this revision: the Redis and RabbitMQ clients are outside the model and the check (see "
+            "DESIGN.md 'Coverage by broker'). Every in-memory broker call is one atomic block between two sleep(0) awaits, so a "
+            "cancelled call is absent or complete; the harness exercises that with real task.cancel() at 0..5 loop iterations. ")
+
+PROPS["C01"] = {
+    "text": "Theorems over the in-memory broker model (MemBroker.v) for ALL finite histories of enqueue / poll / ack / nack / "
+            "reject / requeue / finish by well-behaved clients: every id is in exactly one of waiting, delayed, dead, held "
+            "(counting invariant Partition, conservation law live_run), ack removes, nack dead-letters, reject returns to the "
+            "category of origin, requeue replaces in one atomic effect, delivery marks exactly one holder. Tie: ~700 random "
+            "histories per quick run on the real InMemoryMessageBroker in virtual time (concurrent consumers, cancelled calls), "
+            "abstract state compared with the model after every call, full messages at the end.",
+    "note": MEM_NOTE,
+    "technique": "Coq proof by counting invariant over all histories + differential correspondence of broker histories",
+    "design": "DESIGN.md §3 C01",
+}
+PROPS["C05"] = {
+    "text": "Theorems (in-memory model, all reachable states, non-decreasing clock): a message handed to a normal consumer at "
+            "`now` was filed under a due time strictly before now (DueInv is preserved by every call incl. reject/finish of "
+            "delayed-category messages); before its due time it is not in the waiting list; enqueue/requeue file under "
+            "wait_until; every update pass moves every due entry. 'Never forgotten' is PARTIAL in Coq (no bound on polls between "
+            "update passes) and checked by the oracle on the real consumer: a listening consumer receives the message within "
+            "1 s + 3 ms + 1 ms per waiting message after T. Tie: ~500 histories per quick run with due times at every phase of "
+            "the clock and enqueues racing a polling consumer.",
+    "note": MEM_NOTE,
+    "technique": "Coq proof by invariant (due-time invariant over all histories) + differential correspondence in virtual time",
+    "design": "DESIGN.md §3 C05",
+}
+PROPS["C12"] = {
+    "text": "Theorems (in-memory model): a poll never delivers an overdue message to a normal consumer; the overdue head of the "
+            "waiting list goes to the dead-letter list and is retrievable through the dead category; a poll dead-letters "
+            "nothing else (live or ttl-less messages are never dropped); overdue is strict (at the expiry instant still live); "
+            "reschedule restarts the ttl clock, retry keeps it. Tie: ~600 histories per quick run with clock advances to "
+            "expiry-1us / =expiry / +1us, delayed / retried / rescheduled messages (real _prepare_retry/_prepare_reschedule).",
+    "note": MEM_NOTE + "Delivery = return of consume(); the in-memory consumer has no prefetch buffer.",
+    "technique": "Coq proof over the poll function (all states, all instants) + differential correspondence at exact expiry instants",
+    "design": "DESIGN.md §3 C12",
+}
+PROPS["C14"] = {
+    "text": "Theorems (in-memory model, any number of consumers, any interleaving of their atomic polls): a delivered message was "
+            "held by nobody and is afterwards held exactly once; a held message is not delivered again until it leaves the "
+            "processing set; Partition holds in every reachable state; finish() of one consumer returns only its own messages. "
+            "Tie: ~600 histories per quick run with 2-5 consumers polling concurrently on one queue, holders compared after every call.",
+    "note": MEM_NOTE + "All consumers share one process and event loop (the only way to share the in-memory broker). "
+            "The 'executed exactly once' corollary is observed through deliveries, not through a worker.",
+    "technique": "Coq proof by counting invariant + differential correspondence with concurrently polling consumers",
+    "design": "DESIGN.md §3 C14",
+}
+PROPS["C15"] = {
+    "text": "Theorems (in-memory model, one normal consumer with any topic filter, all histories): the delivered message arrived "
+            "in the waiting list before every matching message still waiting (FifoInv over arrival stamps, preserved by every "
+            "call; rotation of foreign topics keeps the relative order of matching ones); a returned message gets the next "
+            "stamp, i.e. is ahead of everything enqueued later. Tie: ~600 histories per quick run, backlogs 0..35 with foreign "
+            "topics, interleaved enqueues, rejects and restarts; oracle: no delivery overtakes an earlier matching live message.",
+    "note": MEM_NOTE + "The in-memory broker keeps one FIFO per queue regardless of priority.",
+    "technique": "Coq proof by order invariant over arrival stamps + differential correspondence of delivery sequences",
+    "design": "DESIGN.md §3 C15",
+}
